@@ -176,7 +176,10 @@ func (c *BindingManager) RemoveBindingsForEntity(remoteEntity api.EntityRemoteIn
 
 	var newBindingEntries []*api.BindingEntry
 	for _, item := range c.bindingEntries {
-		if !reflect.DeepEqual(item.ClientFeature.Address().Entity, remoteEntity.Address().Entity) {
+		// the entity addresses of different remote devices can be identical,
+		// so the binding has to belong to the same remote device as well
+		if item.ClientFeature.Device().Ski() != remoteEntity.Device().Ski() ||
+			!reflect.DeepEqual(item.ClientFeature.Address().Entity, remoteEntity.Address().Entity) {
 			newBindingEntries = append(newBindingEntries, item)
 			continue
 		}
